@@ -8,6 +8,8 @@ import (
 	"os"
 	"path/filepath"
 	"runtime"
+	"runtime/debug"
+	"runtime/pprof"
 	"sort"
 	"strconv"
 	"strings"
@@ -18,6 +20,7 @@ var verifDir = "/verif"
 var repoDir = "/repo"
 
 func main() {
+	debug.SetGCPercent(800)
 	if len(os.Args) < 2 {
 		fmt.Fprintln(os.Stderr, "usage: gosym check|replay|list ...")
 		os.Exit(2)
@@ -67,7 +70,13 @@ func cmdCheck(args []string) int {
 	timeout := fs.Int("timeout", 0, "per-query timeout ms")
 	budget := fs.Int("budget", 0, "wall-clock budget in seconds for exploration")
 	noEvidence := fs.Bool("noevidence", false, "do not write the evidence file")
+	cpuprof := fs.String("cpuprofile", "", "write cpu profile")
 	fs.Parse(args)
+	if *cpuprof != "" {
+		pf, _ := os.Create(*cpuprof)
+		pprof.StartCPUProfile(pf)
+		defer pprof.StopCPUProfile()
+	}
 	if *tier == "" {
 		*tier = "quick"
 	}
